@@ -27,6 +27,7 @@ import (
 	"strings"
 	"sync"
 	"sync/atomic"
+	"syscall"
 	"time"
 
 	"github.com/feichai0017/NoKV/kv"
@@ -520,7 +521,21 @@ type result struct {
 	alloc   uint64
 }
 
+// guarded runs the decoder once; a measurement over the bound is repeated after a GC (the allocation counter
+// is process wide and receives delayed per-P flushes of earlier small allocations), the smallest delta counts:
+// a decoder that really allocates from the declared length does so every time.
 func guarded(codec string, data []byte) (r result) {
+	r = guardedOnce(codec, data)
+	for i := 0; i < 3 && r.outcome != "panic" && r.alloc >= 1<<20+64*uint64(len(data)); i++ {
+		runtime.GC()
+		if r2 := guardedOnce(codec, data); r2.alloc < r.alloc || r2.outcome == "panic" {
+			r = r2
+		}
+	}
+	return r
+}
+
+func guardedOnce(codec string, data []byte) (r result) {
 	before := allocated()
 	defer func() {
 		if p := recover(); p != nil {
@@ -687,24 +702,35 @@ func watchdog(enc *json.Encoder, mu *sync.Mutex) {
 	var since time.Time
 	var last *string
 	var base uint64
+	var cpu0 time.Duration
 	for {
 		time.Sleep(20 * time.Millisecond)
 		cur := current.Load()
 		if cur != last {
-			last, since, base = cur, time.Now(), allocated()
+			last, since, base, cpu0 = cur, time.Now(), allocated(), cpuTime()
 			continue
 		}
 		if cur == nil {
 			continue
 		}
 		grown := allocated() - base
-		if time.Since(since) > 5*time.Second || grown > 1<<30 {
+		// stalled = the process itself burnt CPU for the whole window (a loaded machine only delays us)
+		spinning := time.Since(since) > 10*time.Second && cpuTime()-cpu0 > 8*time.Second
+		if spinning || time.Since(since) > 10*time.Minute || grown > 1<<30 {
 			mu.Lock()
 			_ = enc.Encode(map[string]any{"e": "_watchdog", "what": *cur, "seconds": int(time.Since(since).Seconds()), "allocMiB": int(grown >> 20)})
 			os.Stdout.Sync()
 			os.Exit(3)
 		}
 	}
+}
+
+func cpuTime() time.Duration {
+	var ru syscall.Rusage
+	if syscall.Getrusage(syscall.RUSAGE_SELF, &ru) != nil {
+		return 0
+	}
+	return time.Duration(ru.Utime.Nano() + ru.Stime.Nano())
 }
 
 func worker() {
